@@ -184,7 +184,14 @@ def install(world):
 
     def b_set(it, node, x=()):
         if isinstance(x, (tuple, list, set, frozenset, str)):
+            if not it.spec and not x and getattr(
+                    world, 'symbolic_sets', False):
+                return S.empty_set(TVal)
             return set(x)
+        if isinstance(x, SVal):
+            # set(opaque iterable): membership through py.in
+            v = z3.Const(S.fresh_name('e'), S.Val)
+            return S.SSet(z3.Lambda([v], S.py_in(x.t, v)), TVal)
         raise Unsupported('set() of %r' % (x,))
     reg('set', b_set, True)
 
@@ -630,6 +637,22 @@ def seq_method(world, o, name, args, kw, it, node):
         if name == 'copy':
             return MList(o.seq)
         raise Unsupported('list.%s on symbolic list' % name)
+    if isinstance(o, S.SSet):
+        if name == 'add':
+            o.arr = z3.Store(o.arr, o.elem.unwrap(args[0]), z3.BoolVal(True))
+            return None
+        if name == 'update':
+            x = args[0]
+            v = z3.Const(S.fresh_name('e'), o.elem.sort())
+            if isinstance(x, SVal):
+                o.arr = z3.Lambda([v], z3.Or(z3.Select(o.arr, v),
+                                             S.py_in(x.t, v)))
+                return None
+            if isinstance(x, S.SSet):
+                o.arr = z3.Lambda([v], z3.Or(z3.Select(o.arr, v),
+                                             z3.Select(x.arr, v)))
+                return None
+        raise Unsupported('set.%s on symbolic set' % name)
     if isinstance(o, (set,)):
         if name == 'add':
             if S.is_sym(args[0]):
